@@ -44,7 +44,8 @@ let show_var = function
 
 let show_obs o =
   String.concat "," (List.map show_var o.ovars) ^ ";" ^
-  String.concat "." (List.map (fun d -> string_of_int (int_of_nat d)) o.odestroyed)
+  String.concat "." (List.map (fun d -> string_of_int (int_of_nat d)) o.odestroyed) ^ ";" ^
+  String.concat "." (List.map (fun d -> string_of_int (int_of_nat d)) o.oorphaned)
 
 let () =
   let ic = open_in Sys.argv.(1) in
@@ -52,9 +53,11 @@ let () =
     while true do
       let line = input_line ic in
       match List.filter (fun s -> s <> "") (split ' ' line) with
-      | "seq" :: nv :: toks ->
+      | "seq" :: kinds :: toks ->
+        (* one letter per handle variable: M default deleter, C default deleter on const T, N no-operation deleter *)
+        let nodel v = let i = int_of_nat v in i < String.length kinds && kinds.[i] = 'N' in
         let ops = List.map seq_op toks in
-        let (outs, fin) = run_case (n nv) ops in
+        let (outs, fin) = run_case nodel (nat_of_int (String.length kinds)) ops in
         let b = Buffer.create 256 in
         let anybad = ref fin.obad in
         List.iter (function
